@@ -27,12 +27,13 @@ RULE = (
     "records: every list of record ids from the enumerated pools (quick: all single ids of length <= 4 "
     "over {a,b,:,_,0} and every illegal character at 3 positions; all ordered pairs of ids of length <= 3; "
     "all ordered triples over 24 curated short ids and over all ids of length <= 2 of {a,:,_,0}; all "
-    "4-lists over 5 ids around a/a_0/a_1; all ordered pairs over 46 and triples over 24 long/special ids "
+    "4-lists over 5 ids around a/a_0/a_1; all ordered pairs over 47 and triples over 24 long/special ids "
     "(17-30 chars sharing 7/12/16-char prefixes, versioned accessions, contig/scaffold/c-number patterns "
-    "incl. 99999/100000, literal shortened and de-duplicated forms, illegal characters before/after "
+    "incl. 99999/100000/123456, literal shortened and de-duplicated forms, illegal characters before/after "
     "positions 7 and 12), both allow_long_headers settings where the length matters; names differing "
     "from ids). cds: all sequences of <= 3 CDS features over 8 name kinds x 4 locations. thorough: wider "
-    "pools plus seeded random lists of <= 6 ids. Non-trivial: some rewrite is required (duplicate ids, "
+    "pools, preceded by 6000 seeded random lists of 2-6 ids per shard (duplicates, ids differing in one illegal "
+    "character, ids sharing 16 characters, random names). Non-trivial: some rewrite is required (duplicate ids, "
     "an id/name over 16 characters while long headers are off, an illegal character) or two ids coincide "
     "after stripping or in their first 7/12 characters; cds: at least two features sharing a sanitised "
     "name or a location. Distinct = distinct case."
@@ -452,20 +453,21 @@ def shards(tier: str, seed: int) -> list:
     return [{"tier": tier, "k": k, "n": N_SHARDS} for k in range(N_SHARDS)]
 
 
+RANDOM_PER_SHARD = 6000
+
+
 def run_shard(shard, run) -> None:
     tier, k, n = shard["tier"], shard["k"], shard["n"]
+    if tier != "quick":
+        # the seeded part first: it must not be the victim of a truncated exhaustive part
+        for count in range(RANDOM_PER_SHARD):
+            if count % 128 == 0 and run.out_of_time():
+                return
+            _report(random_case(run.rng), run)
     for index, case in enumerate(exhaustive_cases(tier, k, n)):
         if index % 256 == 0 and run.out_of_time():
             return
         _report(case, run)
-    if tier == "quick":
-        return
-    count = 0
-    while count < 40000:
-        if count % 128 == 0 and run.out_of_time():
-            break
-        _report(random_case(run.rng), run)
-        count += 1
 
 
 def replay(case) -> list:
